@@ -588,6 +588,19 @@ enum Decision {
 	PanicFault,
 }
 
+thread_local! {
+	static UNWIND_DROP: std::cell::Cell<u32> = const { std::cell::Cell::new(0) };
+}
+
+/// the interpreter is running a step from a destructor during an unwinding
+pub fn set_unwind_drop(on: bool) {
+	UNWIND_DROP.with(|c| c.set(if on { c.get() + 1 } else { c.get().saturating_sub(1) }));
+}
+
+fn in_unwind_drop() -> bool {
+	UNWIND_DROP.with(|c| c.get() > 0)
+}
+
 /// Entry point used by the verification raw locks for every raw operation.
 /// Returns the boolean result for try operations (true for the others).
 pub fn raw_op(lid: Lid, op: Op) -> bool {
@@ -609,7 +622,11 @@ pub fn raw_op(lid: Lid, op: Op) -> bool {
 			b
 		}
 		Decision::PanicAbort => {
-			if std::thread::panicking() {
+			// while a panic unwinds, cleanup code (guard drops, handlers) must not
+			// be hit by a second panic; a *blocking acquisition* issued from a
+			// destructor that the interpreter runs on purpose during an unwinding
+			// (Step::UnwindingDrop) is not cleanup and is ended like any other
+			if std::thread::panicking() && !(op.is_blocking() && in_unwind_drop()) {
 				true
 			} else {
 				std::panic::panic_any(VerifAbort)
